@@ -330,11 +330,18 @@ def observe_read(ep, chunks):
     return obs
 
 
-def observe_expect(ep, chunks, term, tmo, setbuf=False):
+def observe_expect(ep, chunks, term, tmo, setbuf=False, ctl=False):
     obs = []
     c = ep.child
+    if ctl:
+        # the child itself is stopped, so what is typed at it stays in the terminal's input queue (cat would copy it back)
+        os.kill(c.pid, signal.SIGSTOP)
     for i, ch in enumerate(chunks):
         last = i == len(chunks) - 1
+        if ctl and i:
+            # a control character is sent between two reads: the send side (and its log) has nothing to do with the bytes of
+            # a character the read side has received only in part
+            [c.sendcontrol, c.sendcontrol, lambda ch: c.sendintr(), lambda ch: c.sendeof()][i % 4]('g')
         if setbuf and i and obs[-1].get('idx') == 1:
             # the caller re-assigns the pending text between two calls, to the same value (after a TIMEOUT `before` is
             # all of it; `buffer` itself may be trimmed to the search window): the bytes of a character that is still
@@ -416,7 +423,7 @@ def observe_async_calls(ep, chunks, term):
 
 VARIANTS = [(t, v) for v in ('read', 'expect') for t in ('pty', 'fd', 'popen', 'socket')] + \
            [(t, 'async') for t in ('pty', 'fd', 'socket')] + [(t, 'async_calls') for t in ('fd', 'socket')] + \
-           [(t, 'expect_setbuf') for t in ('pty', 'fd', 'socket', 'popen')]
+           [(t, 'expect_setbuf') for t in ('pty', 'fd', 'socket', 'popen')] + [('pty', 'expect_ctl')]
 
 
 def observe(case, factory=None):
@@ -433,6 +440,8 @@ def observe(case, factory=None):
             return observe_expect(ep, chunks, term, 0 if case['transport'] in ('pty', 'fd') else 0.004)
         if v == 'expect_setbuf':
             return observe_expect(ep, chunks, term, 0 if case['transport'] in ('pty', 'fd') else 0.004, setbuf=True)
+        if v == 'expect_ctl':
+            return observe_expect(ep, chunks, term, 0, ctl=True)
         if v == 'async':
             return observe_async(ep, chunks, term)
         if v == 'async_calls':
@@ -449,7 +458,7 @@ def judge(case, obs):
     uni = case['mode'] == 'unicode'
     T = str if uni else bytes
     v = case['variant']
-    if v == 'expect_setbuf':
+    if v in ('expect_setbuf', 'expect_ctl'):
         v = 'expect'
     term = TERM if uni else TERM.encode('ascii')
     steps = case['steps']
@@ -612,7 +621,7 @@ def run(ctx):
                  3 if quick else 4, len(g.nodes), g.n_edges(), npaths, len(paths), len(base), len(skipped)))
     del g
     # (3) replay
-    budget = {'read': 8000, 'expect': 4000, 'async': 3000, 'async_calls': 1500, 'expect_setbuf': 1500} if quick else {'read': 70000, 'expect': 35000, 'async': 25000, 'async_calls': 12000, 'expect_setbuf': 12000}
+    budget = {'read': 8000, 'expect': 4000, 'async': 3000, 'async_calls': 1500, 'expect_setbuf': 1500, 'expect_ctl': 1500} if quick else {'read': 70000, 'expect': 35000, 'async': 25000, 'async_calls': 12000, 'expect_setbuf': 12000, 'expect_ctl': 12000}
     jobs = []
     for t, v in VARIANTS:
         n = budget[v] if t != 'pty' else budget[v] // 2
